@@ -10,7 +10,8 @@
 EXTENDS Bulk
 CONSTANTS MaxRows
 Fold(ch) == <<ch>>
-Conv == Construct(<<Rec(<<1>>, <<3, 1>>, {<<2>>}, {<<3, 2>>}, NoPat)>>, <<58>>, TRUE).conv   \* a -> "ua", synonyms b, "ub"
+\* a -> "ua" (synonyms b, "ub");  u -> "a:"  so that the cell "a:a" is BOTH a URI (of u) and a CURIE (of a)
+Conv == Construct(<<Rec(<<1>>, <<3, 1>>, {<<2>>}, {<<3, 2>>}, NoPat), Rec(<<3>>, <<1, 58>>, {}, {}, NoPat)>>, <<58>>, TRUE).conv
 Cells == {<<3, 1, 1>>, <<3, 2, 1>>, <<1, 58, 1>>, <<2, 58, 1>>, <<3, 58, 1>>, <<1, 1>>, <<>>}
 Rows == {<<x, y>> : x \in Cells, y \in {<<1>>, <<>>}} \cup {<<x>> : x \in {<<3, 1, 1>>, <<1, 58, 1>>}}
 MInit == disk = <<>> /\ buf = <<>> /\ pc = "idle" /\ job = <<>>
